@@ -99,6 +99,15 @@ namespace vh {
     std::vector<Boxed_Value> c_vec;
     std::map<std::string, Boxed_Value> c_map;
     Tk c_tk{7};
+    // values handed to the engine with const_var (the engine holds the object; the driver keeps a handle to read it)
+    Boxed_Value cv_int, cv_str, cv_vec, cv_map;
+    std::shared_ptr<const Tk> csp_tk = std::make_shared<const Tk>(8);
+    // mutable controls shared with the engine: the same chains and mutators must SUCCEED on them (C07 vacuity guard)
+    std::shared_ptr<int> nc_int = std::make_shared<int>(41);
+    std::shared_ptr<std::string> nc_str = std::make_shared<std::string>("cstr");
+    std::shared_ptr<std::vector<Boxed_Value>> nc_vec = std::make_shared<std::vector<Boxed_Value>>();
+    std::shared_ptr<std::map<std::string, Boxed_Value>> nc_map = std::make_shared<std::map<std::string, Boxed_Value>>();
+    std::shared_ptr<Tk> nc_tk = std::make_shared<Tk>(7);
 
     int cb(int x) {
       ++cb_calls;
@@ -182,6 +191,25 @@ namespace vh {
       chai.add(fun([this]() -> const std::vector<Boxed_Value> & { return c_vec; }), "cref_vec");
       chai.add(fun([this]() -> const std::map<std::string, Boxed_Value> & { return c_map; }), "cref_map");
       chai.add(fun([]() -> const int { return 5; }), "cret_int");
+      chai.add(fun([]() -> const Tk { return Tk(6); }), "tk_cret");
+      cv_int = const_var(41);
+      cv_str = const_var(std::string("cstr"));
+      cv_vec = const_var(std::vector<Boxed_Value>{var(1), var(2)});
+      cv_map = const_var(std::map<std::string, Boxed_Value>{{"a", var(1)}, {"b", var(2)}});
+      chai.add_global_const(cv_int, "CV_INT");
+      chai.add_global_const(cv_str, "CV_STR");
+      chai.add_global_const(cv_vec, "CV_VEC");
+      chai.add_global_const(cv_map, "CV_MAP");
+      chai.add_global_const(Boxed_Value(std::cref(c_int)), "CW_INT");
+      chai.add_global_const(Boxed_Value(csp_tk), "CSP_TK");
+      *nc_vec = {var(1), var(2)};
+      *nc_map = {{"a", var(1)}, {"b", var(2)}};
+      chai.add_global(var(nc_int), "NC_INT");
+      chai.add_global(var(nc_str), "NC_STR");
+      chai.add_global(var(nc_vec), "NC_VEC");
+      chai.add_global(var(nc_map), "NC_MAP");
+      chai.add_global(var(nc_tk), "NC_TK");
+      chai.eval("def idf(x) { x }");
       chai.eval("def out(x) { hout(to_string(x)) }");
     }
 
@@ -192,7 +220,11 @@ namespace vh {
         std::string r = "{\"cvals\":{\"c_int\":" + std::to_string(c_int) + ",\"c_str\":" + jstr(c_str) + ",\"c_vecint\":[";
         for (size_t i = 0; i < c_vecint.size(); ++i) { r += (i ? "," : "") + std::to_string(c_vecint[i]); }
         r += "],\"c_vec\":" + jstr(render(const_var(c_vec), chai)) + ",\"c_map\":" + jstr(render(const_var(c_map), chai));
-        r += ",\"c_tk\":" + std::to_string(c_tk.m_v) + "}}";
+        r += ",\"c_tk\":" + std::to_string(c_tk.m_v);
+        r += ",\"cv_int\":" + jstr(render(cv_int, chai)) + ",\"cv_str\":" + jstr(render(cv_str, chai)) + ",\"cv_vec\":" + jstr(render(cv_vec, chai))
+             + ",\"cv_map\":" + jstr(render(cv_map, chai)) + ",\"csp_tk\":" + std::to_string(csp_tk->m_v);
+        r += ",\"nc_int\":" + std::to_string(*nc_int) + ",\"nc_str\":" + jstr(*nc_str) + ",\"nc_vec\":" + jstr(render(const_var(*nc_vec), chai))
+             + ",\"nc_map\":" + jstr(render(const_var(*nc_map), chai)) + ",\"nc_tk\":" + std::to_string(nc_tk->m_v) + "}}";
         return r;
       }
       if (op == "tk") {
